@@ -128,6 +128,23 @@ def result_constructs(prog, eff, f, bind, depth=0, seen=None):
             tt = t
             while isinstance(tt, Partial):
                 tt = tt.target
+            if isinstance(tt, tuple) and tt and tt[0] == 'callresult' and isinstance(tt[1], Func) and not tt[1].is_lambda:
+                # the callable comes from a selector (`backend = _select_backend(raster); backend(raster, ..)`): every
+                # function the selector may return
+                sel = tt[1]
+                outs = []
+                for r_ in [n for n in sel.own_nodes() if isinstance(n, ast.Return) and n.value is not None]:
+                    g_ = prog.resolve_callable(sel, sel.module, r_.value)
+                    while isinstance(g_, Partial):
+                        g_ = g_.target
+                    if isinstance(g_, Func) and 'gpu' not in g_.qualname and 'cupy' not in g_.qualname:
+                        b2 = {}
+                        for p, a in list(zip(g_.params, e.args)) + [(k.arg, k.value) for k in e.keywords if k.arg]:
+                            if isinstance(a, ast.Name) and a.id in bind:
+                                b2[p] = bind[a.id]
+                        outs += result_constructs(prog, eff, g_, b2, depth + 1, seen)
+                if outs:
+                    return outs
             if isinstance(tt, Func):
                 b2 = {}
                 for p, a in list(zip(tt.params, e.args)) + [(k.arg, k.value) for k in e.keywords if k.arg]:
